@@ -250,13 +250,26 @@ class HopSummary:
                     return "|".join(sorted(i.rels)), i.sorted, binder
                 return "?", False, binder
             # a local alias: `tail = edge["tail_node"]` / walrus
-            for st in ast.walk(self.fn):
-                if isinstance(st, ast.NamedExpr) and st.target.id == e.id:
-                    return self.endpoint(st.value, st)
+            # (the binding that shares the innermost enclosing loop with the use: after `for e in chain(A, B)` has been split
+            # into two loops each copy has a walrus / assignment of its own)
+            loop = self._enclosing_loop(at)
+            walrus = [st for st in ast.walk(self.fn) if isinstance(st, ast.NamedExpr) and st.target.id == e.id]
+            near = [st for st in walrus if self._enclosing_loop(st) is loop] or walrus
+            if near:
+                return self.endpoint(near[0].value, near[0])
             vals = [(s_, v) for s_, v in astq.assignments(self.fn, e.id) if v is not None]
-            if len(vals) == 1:
-                return self.endpoint(vals[0][1], vals[0][0])
+            nearv = [x for x in vals if self._enclosing_loop(x[0]) is loop] or vals
+            if len(nearv) == 1:
+                return self.endpoint(nearv[0][1], nearv[0][0])
         return "?", False, None
+
+    def _enclosing_loop(self, n: ast.AST):
+        p = n
+        while p in self.parents:
+            p = self.parents[p]
+            if isinstance(p, (ast.For, ast.While)):
+                return p
+        return None
 
     def _factory_calls_in(self, it: ast.AST, depth: int = 0):
         """factory calls that produce the elements of an iterable of edge objects (through locals, chain, list displays)"""
